@@ -233,7 +233,7 @@ def read_ndjson(path):
         return [json.loads(l) for l in f if l.strip()]
 
 
-def run_harness(rvh, cases, workdir, name="trace", timeout_ms=10000):
+def run_harness(rvh, cases, workdir, name="trace", timeout_ms=10000, max_timeouts=6):
     """Run rvh over cases; restarts after a timeout or a hard crash so that every case
     yields exactly one event (ev = obs|...|panic|timeout|crash)."""
     os.makedirs(workdir, exist_ok=True)
@@ -260,6 +260,13 @@ def run_harness(rvh, cases, workdir, name="trace", timeout_ms=10000):
             break
         if p.returncode == 3:      # watchdog: event already written
             start = done
+            ntimeouts = sum(1 for e in read_ndjson(tpath) if e.get("ev") == "timeout")
+            if ntimeouts >= max_timeouts:
+                # enough witnesses: the remaining cases are not explored (recorded as skipped, never as passed)
+                evs = read_ndjson(tpath)
+                evs += [{"ev": "skipped", "id": c.get("id"), "mode": c.get("mode")} for c in cases[start:]]
+                write_ndjson(tpath, evs)
+                break
             continue
         # hard crash (stack overflow / abort): attribute to the case in progress
         cur = done
